@@ -503,7 +503,12 @@ def run_case(case):
                 elif what == 'cancel':
                     requests[op['target']].cancel()
                 elif what == 'exit':
-                    requests[op['target']].__exit__(None, None, None)
+                    if number % 2:
+                        # the generator holding the `with request:` block is abandoned (closed)
+                        abandoned = GeneratorExit()
+                        requests[op['target']].__exit__(GeneratorExit, abandoned, None)
+                    else:
+                        requests[op['target']].__exit__(None, None, None)
                 elif what == 'interrupt':
                     procs[op['target']].interrupt('stop')
             yield env.timeout(1)
